@@ -110,6 +110,22 @@ func (e *Engine) VerifyFunc(fn *ssa.Function, opts VerifyOpts) (res *FuncResult)
 		f.modLocs = f.evalModLocs(ct, st)
 		f.checkFrame = true
 	}
+	if ct != nil && ct.CopyFamily {
+		f.trackOwn = true
+		st.heap[coComp] = ConstArr(ArrS(SInt, SBool), False)
+		e.compSeen[coComp] = ArrS(SInt, SBool)
+		if _, isPtr := f.subst(fn.Params[0].Type()).Underlying().(*types.Pointer); isPtr {
+			ctx.assume(Neq(f.asTerm(f.vals[fn.Params[0]]), IntLit(0)))
+		}
+		prev := opts.ExtraPost
+		opts.ExtraPost = func(ff *Frame, exit *State, rs []SVal) []namedTerm {
+			out := ff.copyObligations(exit, rs)
+			if prev != nil {
+				out = append(out, prev(ff, exit, rs)...)
+			}
+			return out
+		}
+	}
 	if opts.ExtraPre != nil {
 		for _, t := range opts.ExtraPre(f, st) {
 			ctx.assume(t)
@@ -188,10 +204,18 @@ func (f *Frame) contractCall(st *State, r *Term, target *ssa.Function, tmap TMap
 	cf.entry = pre
 	calleeShort := shortKey(ct.Key)
 	presite := fmt.Sprintf("call%dpre", siteN)
+	if ct.CopyFamily {
+		if _, isPtr := cf.subst(target.Params[0].Type()).Underlying().(*types.Pointer); isPtr {
+			if rt, isTerm := args[0].(*Term); isTerm {
+				f.check("pre", "->"+calleeShort+":receiver-non-nil", r, Neq(rt, IntLit(0)), pos)
+			}
+		}
+	}
 	for i, rq := range ct.Requires {
 		se := cf.specEnv(pre, pre)
 		se.positive = false
 		se.wit, se.witParam = rq.Wit, rq.WitParam
+		f.useActiveWitnesses(se, st)
 		t := se.evalBool(rq.Expr)
 		label := rq.Label
 		if label == "" {
@@ -228,20 +252,16 @@ func (f *Frame) contractCall(st *State, r *Term, target *ssa.Function, tmap TMap
 		}
 		if ct.ModifiesSet || ct.Fresh {
 			locs := cf.evalModLocs(ct, pre)
-			f.frameCheckCall(r, calleeShort, locs, true, pos)
+			f.frameCheckCall(st, r, calleeShort, locs, true, pos)
+			// Only the components named by the write frame change at pre-existing references. Memory
+			// the callee allocates was never constrained before (nothing is ever asserted about
+			// references >= the allocation counter), so it needs no havoc: the callee's
+			// postconditions simply reveal its contents.
 			comps := map[string]Sort{}
-			if eff.top {
-				for k, v := range ctx.eng.compSeen {
-					comps[k] = v
-				}
-			} else {
-				for k, v := range eff.comps {
-					comps[k] = v
-				}
-			}
 			for _, l := range locs {
 				comps[l.comp] = l.srt
 			}
+			_ = eff
 			old := copyHeap(st.heap)
 			oldBase := st.base
 			f.havocComps(st, comps)
@@ -259,7 +279,7 @@ func (f *Frame) contractCall(st *State, r *Term, target *ssa.Function, tmap TMap
 			}
 		} else {
 			if eff.top || len(eff.comps) > 0 {
-				f.frameCheckCall(r, calleeShort, nil, false, pos)
+				f.frameCheckCall(st, r, calleeShort, nil, false, pos)
 			}
 			if eff.top {
 				f.havocTop(st)
@@ -279,6 +299,14 @@ func (f *Frame) contractCall(st *State, r *Term, target *ssa.Function, tmap TMap
 		rs = append(rs, SVal{v, t})
 		out = append(out, v)
 	}
+	if ct.CopyFamily {
+		// only callees that establish abstract copy relations keep their memory to themselves;
+		// constructors such as orderedmap.New hand theirs over to the caller
+		f.markCalleeOwned(st, pre.alloc, st.alloc)
+	}
+	if ct.CopyFamily && len(out) == 1 {
+		ctx.assume(Implies(r, f.copyEnsures(cf, target, pre, st, args, out[0].(*Term), rs[0].T)))
+	}
 	for _, en := range ct.Ensures {
 		se := cf.specEnv(st, pre)
 		se.results = rs
@@ -296,3 +324,19 @@ func (f *Frame) contractCall(st *State, r *Term, target *ssa.Function, tmap TMap
 	return out
 }
 
+
+// useActiveWitnesses lets a callee precondition be proved with the witnesses the caller's loop supplies.
+func (f *Frame) useActiveWitnesses(se *specEnv, st *State) {
+	p := f
+	for p != nil && p.activeWit == nil {
+		p = p.parent
+	}
+	if p == nil || se.wit != nil {
+		return
+	}
+	se.wit, se.witParam = p.activeWit.Wit, p.activeWit.WitParam
+	we := p.specEnv(st, p.top().entry)
+	we.loop, we.lenv = p.activeWitLoop, p.activeWitEnv
+	we.presite = "pre"
+	se.witEnv = we
+}
